@@ -147,6 +147,21 @@ func mutate(rng *rand.Rand, tx *Transaction, mut string, c, d int64) {
 		t.S.Sub(new(big.Int).Lsh(one, 256), one)
 	case "vbig":
 		t.V.Lsh(one, uint(9+rng.Intn(80)))
+	case "v+256k": // the same low byte, one or more higher bits set
+		t.V.Add(t.V, new(big.Int).Lsh(big.NewInt(int64(1+rng.Intn(255))), uint(8*(1+rng.Intn(7)))))
+	case "s-wide": // 33 bytes whose low 32 bytes are the original s and whose top byte is the low byte of r
+		t.S.Add(t.S, new(big.Int).Lsh(new(big.Int).And(t.R, big.NewInt(0xff)), 256))
+		if t.S.BitLen() <= 256 {
+			t.S.Add(t.S, new(big.Int).Lsh(one, 256))
+		}
+	case "highS-wide": // the high-S twin, hidden below a 33rd byte
+		mutate(rng, tx, "highS", c, d)
+		t.S.Add(t.S, new(big.Int).Lsh(new(big.Int).And(t.R, big.NewInt(0xff)), 256))
+		if t.S.BitLen() <= 256 {
+			t.S.Add(t.S, new(big.Int).Lsh(one, 256))
+		}
+	case "r-wide":
+		t.R.Add(t.R, new(big.Int).Lsh(big.NewInt(int64(1+rng.Intn(255))), 256))
 	}
 }
 
@@ -168,7 +183,7 @@ func TestVerifTxSig(t *testing.T) {
 	w := &sgw{w: bufio.NewWriterSize(f, 1<<20)}
 	defer w.w.Flush()
 	rng := rand.New(rand.NewSource(seed*279470273 + 37))
-	muts := []string{"none", "chainid", "nonce", "price", "gas", "to", "value", "data", "r+1", "s+1", "vflip", "highS", "r=0", "s=0", "r=N", "s=N", "s=max", "vbig"}
+	muts := []string{"none", "chainid", "nonce", "price", "gas", "to", "value", "data", "r+1", "s+1", "vflip", "highS", "r=0", "s=0", "r=N", "s=N", "s=max", "vbig", "v+256k", "s-wide", "highS-wide", "r-wide"}
 	for rep := 0; rep < reps; rep++ {
 		key, _ := crypto.GenerateKey()
 		want := crypto.PubkeyToAddress(key.PubKey())
